@@ -788,6 +788,11 @@ func (c *Canary) send(state *State, payload []byte, flags tcp.Flag) error {
 
 	}
 
+	if ae == nil {
+		// neither an ARP entry nor a route with a known gateway: nothing to answer to
+		return fmt.Errorf("no ARP entry for %s", dst.String())
+	}
+
 	ef := ethernet.Frame{
 		Source:      c.networkInterfaces[0].HardwareAddr,
 		Destination: ae.HardwareAddress,
